@@ -71,13 +71,15 @@ ASSUMPTIONS = ["an event is not fired again while a firing of the same event is 
                "handles are values: removing through a handle that compares equal (==) to the handle of the registered instance removes that instance",
                "removing through a handle none of whose equal registrations is still registered: must raise only if none of them ever ran "
                "(IReactorCore documents the exception; removal of already-run triggers merely warns today)",
-               "REREG_RAN_BEFORE_HOOK_IN_FIRING_P: see the constant (precondition of a reported finding, avoided by default)"]
+               "REREG_RAN_BEFORE_HOOK_IN_FIRING_P: see the constant (precondition of a genuine defect of the tree as first examined, REPAIRED in /repo 9377ebd; "
+               "let into 0.2 of the runs by default)"]
 
 # Share of runs that may re-register, WHILE an event is being fired, a before-hook identical to a before-trigger that already ran in
-# this very firing.  On the unchanged tree removing such a re-registration before the firing completes only warns and leaves it
-# registered (removeTrigger_BEFORE looks the value up in finishedBefore), so it runs at the next firing: signature
-# C12:removed-never-runs:before:equal-hook-ran-in-this-firing.  0.0 avoids the precondition (see report / MUTANTS); everything else about
-# re-registration is exercised regardless.  VERIF_C12_REREG_RAN_BEFORE_P=0.2 in the environment switches it on (search and --replay).
+# this very firing.  On the tree as first examined removing such a re-registration before the firing completed only warned and left it
+# registered (removeTrigger_BEFORE looked the value up in finishedBefore), so it ran at the next firing: signature
+# C12:removed-never-runs:before:equal-hook-ran-in-this-firing - genuine defect, REPAIRED in /repo 9377ebd (see MUTANTS).  The default
+# lets the precondition into 0.2 of the runs; VERIF_C12_REREG_RAN_BEFORE_P=0 in the environment keeps it out (dev-time comparison only;
+# search and --replay); everything else about re-registration is exercised regardless.
 REREG_RAN_BEFORE_HOOK_IN_FIRING_P = float(os.environ.get("VERIF_C12_REREG_RAN_BEFORE_P", "0.2"))
 
 
@@ -566,8 +568,9 @@ MUTANTS = [
     "base.py fireEvent/_continueFiring: 'with _systemEventHandler' -> try/except Exception (seeded r5b): CAUGHT (fire-raised:fireSystemEvent:Stop/"
     "SystemExit/KeyboardInterrupt/CancelledError, all-ran:complete) - needs triggers raising non-Exception BaseExceptions",
     "base.py _continueFiring only: during/after trigger call under try/except Exception: CAUGHT (all-ran:complete)",
-    "FINDING (since repaired in /repo by 9377ebd; precondition avoided unless VERIF_C12_REREG_RAN_BEFORE_P>0): while an event is being fired (before-loop running "
+    "GENUINE DEFECT of the tree as first examined, REPAIRED in /repo 9377ebd (precondition let into REREG_RAN_BEFORE_HOOK_IN_FIRING_P = 0.2 of the runs; "
+    "VERIF_C12_REREG_RAN_BEFORE_P=0 only for dev-time comparison): while an event is being fired (before-loop running "
     "or waiting for before-Deferreds) a before-hook identical to one that already ran in this firing is registered again and removed through its "
-    "handle: removeTrigger_BEFORE finds the value in finishedBefore, only warns, the trigger stays registered and runs (same or next firing): "
+    "handle: removeTrigger_BEFORE found the value in finishedBefore, only warned, the trigger stayed registered and ran (same or next firing): "
     "C12:removed-never-runs:before:equal-hook-ran-in-this-firing",
 ]
